@@ -404,8 +404,8 @@ theorem serWalk_err (plan : FaultPlan) (min max : Nat) (ws : List (List ROut)) :
               · simp only [serialLoop, hw, hp]; exact h2 _
       · simp
 
-theorem parallelRun_err {min max : Nat} {outs : List ROut} {se : Bool}
-    (h : se = true ∨ recvBad min max outs = true) : ∃ e, parallelRun min max true outs se false = .error e := by
+theorem parallelRun_err {min max : Nat} {outs : List ROut} {se ec : Bool}
+    (h : se = true ∨ recvBad min max outs = true) : ∃ e, parallelRun min max true outs se ec = .error e := by
   unfold parallelRun
   split; · exact ⟨_, rfl⟩
   simp only [Bool.not_true, Bool.false_eq_true, if_false]
